@@ -61,27 +61,26 @@ Definition open_gate (E : env) (o : outs) (g : grp) : outs * bool :=
       else (push o DNoBroker g false, true)
   end.
 
-Definition shift (rd : nat -> Z) : nat -> Z := fun i => rd (S i).
-
-(* processExpiredEvents: every group is examined in list order with its own clock reading, every expired one is
-   opened; the walk stops at the first error, leaving the groups not yet examined in place *)
-Fixpoint expire_list (E : env) (rd : nat -> Z) (o : outs) (gs : list grp) : list grp * outs * bool :=
+(* The walk shared by processExpiredEvents and FlushAll (after repair F1 both visit every group): the groups are examined in
+   list order, [sel i g] says whether the i-th group examined is to be opened; the walk stops at the first error, leaving the
+   groups not yet examined in place. *)
+Fixpoint walk (E : env) (sel : nat -> grp -> bool) (o : outs) (gs : list grp) : list grp * outs * bool :=
   match gs with
   | [] => ([], o, true)
   | g :: t =>
-      if gexp g <? rd O then
+      if sel O g then
         let '(o', ok) := open_gate E o g in
-        if ok then expire_list E (shift rd) o' t else (t, o', false)
+        if ok then walk E (fun i => sel (S i)) o' t else (t, o', false)
       else
-        let '(k, o', ok) := expire_list E (shift rd) o t in (g :: k, o', ok)
+        let '(k, o', ok) := walk E (fun i => sel (S i)) o t in (g :: k, o', ok)
   end.
 
-(* FlushAll with a Broker *)
-Fixpoint flush_list (E : env) (o : outs) (gs : list grp) : list grp * outs * bool :=
-  match gs with
-  | [] => ([], o, true)
-  | g :: t => let '(o', ok) := open_gate E o g in if ok then flush_list E o' t else (t, o', false)
-  end.
+(* processExpiredEvents: the i-th group examined is compared with the i-th clock reading: w.Now().After(ge.exp) *)
+Definition expired (rd : nat -> Z) (i : nat) (g : grp) : bool := gexp g <? rd i.
+Definition expire_list (E : env) (rd : nat -> Z) : outs -> list grp -> list grp * outs * bool := walk E (expired rd).
+
+(* FlushAll with a Broker: every group is opened *)
+Definition flush_list (E : env) : outs -> list grp -> list grp * outs * bool := walk E (fun _ _ => true).
 
 (* FlushAll without a Broker *)
 Fixpoint drop_all (o : outs) (gs : list grp) : outs :=
@@ -162,19 +161,18 @@ Definition run (E : env) (ops : list op) : gst := fold_left (fun s o => fst (ste
 Definition arun (E : env) (l : list atom) : gst := fold_left (fun s a => fst (astep E s a)) l s0.
 
 (* the atoms of a sequential history: Process = expire, then (unless it failed) add *)
+Definition op_atoms (E : env) (s : gst) (o : op) : list atom :=
+  match o with
+  | NonGateable => []
+  | Proc id flush n rd tadd =>
+      if N.eqb id 0 then [] else
+      if is_err (snd (astep E s (AExpire rd))) then [AExpire rd] else [AExpire rd; AAdd id flush n tadd]
+  | FlushAll | Close => [AFlushAll]
+  end.
 Fixpoint atoms_of (E : env) (s : gst) (ops : list op) : list atom :=
   match ops with
   | [] => []
-  | o :: t =>
-      let here :=
-        match o with
-        | NonGateable => []
-        | Proc id flush n rd tadd =>
-            if N.eqb id 0 then [] else
-            if is_err (snd (astep E s (AExpire rd))) then [AExpire rd] else [AExpire rd; AAdd id flush n tadd]
-        | FlushAll | Close => [AFlushAll]
-        end in
-      here ++ atoms_of E (fst (step E s o)) t
+  | o :: t => op_atoms E s o ++ atoms_of E (fst (step E s o)) t
   end.
 
 (* ---------- projections of the history ---------- *)
